@@ -9,3 +9,4 @@ import WowVerif.Props.C12
 import WowVerif.Props.C11
 import WowVerif.Props.C20
 import WowVerif.Props.C19
+import WowVerif.Props.C01
